@@ -10,16 +10,20 @@ import os
 from typing import Any
 
 from ..core import JobResult, Violation, digest
-from ..progmc import INF, Alphabet, Real, Ref, diff_traces, fmt, fmt_traces, from_json, has_op, size, skeleton, to_json
+from ..progmc import INF, Alphabet, Real, RefSet, fmt, fmt_traces, from_json, has_op, size, skeleton, to_json
 
 PROPERTY = "C13"
 LEVEL = "exploration"
 MIN_DISTINCT = 2
 
+BASE = dict(sleeps=(1.0, 2.0), moa=(0, 0.53, 1.57), timeout=(0.53,), scope=(INF,), resched=(0.53, INF))
+RICH = dict(sleeps=(0, 1.0, 2.0), moa=(0, 0.53, 1.57, 2.59), timeout=(0, 0.53, 1.57), scope=(INF, 1.57), resched=(0, 0.53, INF))
+SLIM5 = dict(sleeps=(1.0, 2.0), yields=("yield",), moa=(0.53,), timeout=(0.53,), scope=(INF,), resched=(), ks=(0, 1))
+SLIM6 = dict(sleeps=(1.0,), yields=("yield",), moa=(0.53,), timeout=(), scope=(INF,), resched=(), ks=(0,))
+# tier -> families (name, alphabet, min nodes, max nodes, alphabet whose programs were already enumerated by an earlier family)
 TIERS = {
-    # max_nodes, alphabet
-    "quick": (4, dict(sleeps=(1.0, 2.0), moa=(0, 0.53, 1.57), timeout=(0.53,), scope=(INF,), resched=(0.53, INF))),
-    "thorough": (5, dict(sleeps=(1.0, 2.0), moa=(0, 0.53, 1.57), timeout=(0.53,), scope=(INF,), resched=(0.53, INF))),
+    "quick": [("base", BASE, 1, 4, None), ("rich", RICH, 1, 3, BASE), ("slim5", SLIM5, 5, 5, None)],
+    "thorough": [("base", BASE, 1, 5, None), ("rich", RICH, 1, 4, BASE), ("slim6", SLIM6, 6, 6, None)],
 }
 NPARTS = {"quick": 96, "thorough": 192}
 
@@ -46,19 +50,34 @@ ASSUMPTIONS = [
     "task group = asyncio.TaskGroup contract: a scope applies to its host task; children are cancelled when the cancellation reaches the parent inside the group "
     "(so a child keeps running while the parent sits in a shielded section)",
     "no timeout() lexically inside a task group: a TimeoutError leaving a child goes through asyncio.TaskGroup's error path (ExceptionGroup, parent.cancel()/uncancel()), which is stdlib behaviour",
-    "delays: sleeps 1.00/2.00, scope delays 0/0.53/1.57/inf; ties (two timers within 10 ms) are unspecified in asyncio and excluded",
+    "delays are pairwise incommensurable (sleeps 1.00/2.00, scope delays 0.53/1.57/2.59); ties (two timers within 10 ms) are unspecified in asyncio and excluded",
+    "program size: the full grammar has ~2*10^8 programs with <= 5 nodes; the tiers enumerate every program of the stated alphabets and sizes (tier_bounds), not the <= 5 / <= 6 nodes of DESIGN.md",
     "iteration-indexed injections are judged by clauses (i)-(iv) + bookkeeping, not by trace equality (sub-instant placement is loop bookkeeping the statement does not fix)",
     "only the asyncio backend is exercised (trio is not installed)",
 ]
+_A = {
+    "base": "sleeps {1,2}, yield_, shielded_yield, move_on_after {0,0.53,1.57}, timeout {0.53}, scope {inf}, cancel k in {0,1}, reschedule(k, now+{0.53,inf})",
+    "rich": "sleeps {0,1,2}, yield_, shielded_yield, move_on_after {0,0.53,1.57,2.59}, timeout {0,0.53,1.57}, scope {inf, absolute 1.57}, cancel k in {0,1}, reschedule(k, now+{0,0.53,inf})",
+    "slim5": "sleeps {1,2}, yield_, move_on_after {0.53}, timeout {0.53}, scope {inf}, cancel k in {0,1}",
+    "slim6": "sleep {1}, yield_, move_on_after {0.53}, scope {inf}, cancel(0)",
+}
 BOUNDS = {
-    "quick": "<= 4 nodes, nesting <= 3, sleeps {1,2}, move_on_after {0,0.53,1.57}, timeout {0.53}, scope {inf}, cancel k in {0,1}, reschedule D in {0.53,inf}",
-    "thorough": "<= 5 nodes, nesting <= 3, same alphabet",
+    "quick": f"nesting <= 3; ALL programs with <= 4 nodes over [{_A['base']}] + ALL with <= 3 nodes over [{_A['rich']}] + ALL with exactly 5 nodes over [{_A['slim5']}]",
+    "thorough": f"nesting <= 3; ALL programs with <= 5 nodes over [{_A['base']}] + ALL with <= 4 nodes over [{_A['rich']}] + ALL with exactly 6 nodes over [{_A['slim6']}]",
 }
 
 
-def alphabet(tier: str) -> tuple[int, Alphabet]:
-    n, kw = TIERS[tier]
-    return n, Alphabet(**kw)
+def tier_programs(tier: str):
+    """Deterministic enumeration of every program of the tier (families in order, no program twice)."""
+    for _name, kw, lo, hi, seen_kw in TIERS[tier]:
+        alpha = Alphabet(**kw)
+        seen = Alphabet(**seen_kw) if seen_kw else None
+        for prog in alpha.programs(hi):
+            if lo > 1 and size(prog) < lo:
+                continue
+            if seen is not None and seen.contains(prog):
+                continue
+            yield prog
 
 
 def jobs(tier: str) -> list[dict]:
@@ -102,8 +121,21 @@ def fmt_inject(inject: tuple | None) -> str:
     return f"at loop iteration {inject[1]}"
 
 
-def judge(prog: tuple, inject: tuple | None, ref: Ref | None, real: Real, mode: str) -> tuple[list[tuple[str, str]], str]:
-    """Returns ([(violation key, text)], outcome class). mode: 'trace' (compare with ref) | 'clause'."""
+def situation(inj: dict | None) -> str:
+    """Where the external cancel landed (read from the harness at the moment of task.cancel())."""
+    if inj is None:
+        return "not-delivered"
+    if not inj["started"]:
+        return "task-not-started"
+    if inj["shielded"]:
+        return "inside-shield"
+    if inj["scopes_cancel_called"]:
+        return "in-flight-scope-cancel"
+    return "no-scope-cancel-pending"
+
+
+def judge(prog: tuple, inject: tuple | None, refs: RefSet | None, real: Real, mode: str) -> tuple[list[tuple[str, str]], str]:
+    """Returns ([(violation key, text)], outcome class). mode: 'trace' (compare with the reference) | 'clause'."""
     found: list[tuple[str, str]] = []
     kind = "none" if inject is None else ("timed" if inject[0] == "t" else "iter")
     if real.status != "ok":
@@ -112,14 +144,27 @@ def judge(prog: tuple, inject: tuple | None, ref: Ref | None, real: Real, mode: 
         found.append(("invariant/" + key, text))
     root = real.root
     outcome = root.outcome if root is not None else "never-started"
-    if ref is not None and mode == "trace":
-        d = diff_traces(ref.traces(), real.traces())
-        if d is not None:
-            fam = "shield" if has_op(prog, ("shield", "syield")) else "plain"
-            if has_op(prog, ("group",)):
-                fam += "+group"
-            found.append((f"trace/{kind}-cancel/{fam}/{d[0]}", d[1]))
     inj = real.inj
+    if refs is not None and mode == "trace":
+        ds = refs.match(real.traces())
+        if ds is not None:
+            recs = {t.label: t for t in real.tasks}
+            # the task to blame: one that was to end cancelled and did not (a child cancelled by its group first), else the first
+            lost = [d for d in ds if d[3] == "cancelled" and d[4] != "cancelled"]
+            lost.sort(key=lambda d: 0 if (d[2] != "R" and recs.get(d[2]) is not None and recs[d[2]].abort_info) else 1)
+            sym, text, label, end_r, end_o = (lost or ds)[0]
+            if lost:
+                sym = "cancel-lost"
+            T = recs.get(label)
+            if label != "R" and T is not None and T.abort_info is not None:
+                found.append((f"group-abort-cancel/{situation(T.abort_info)}/{sym}", text))  # the group's cancel of this child
+            elif kind == "timed":
+                found.append((f"external-cancel/{situation(inj)}/timed/{sym}", text))
+            else:
+                fam = "shield" if has_op(prog, ("shield", "syield")) else "plain"
+                if has_op(prog, ("group",)):
+                    fam += "+group"
+                found.append((f"trace/{fam}/{sym}", text))
     if kind == "iter":
         if inj is None:
             return found, "iter:late(no-op)"
@@ -128,21 +173,14 @@ def judge(prog: tuple, inject: tuple | None, ref: Ref | None, real: Real, mode: 
             after = [e for e in root.events if e[-2] >= k]
             need = bool(inj["in_ckpt"] and inj["in_ckpt"][1]) or any(e[0] in ("start", "join") and e[2] for e in after)
             completed = [e for e in after if e[0] == "done" and e[2]]
-            if inj["shielded"]:
-                sit = "inside-shield"
-            elif inj["scopes_cancel_called"]:
-                sit = "in-flight-scope-cancel"
-            else:
-                sit = "no-scope-cancel-pending"
             bad = []
             if need and outcome != "cancelled":
                 bad.append(f"(i) task ended {outcome!r} although an unshielded checkpoint followed the external cancel")
             if completed:
                 bad.append(f"(ii) unshielded checkpoint(s) completed after the external cancel: {[e[1] for e in completed]}")
             if bad:
-                key = "external-cancel/" + sit
-                found.append((key, "; ".join(bad) + f"; at injection: cancelling()={inj['cancelling_before']}, cancelled scopes {inj['scopes_cancel_called']}, "
-                                   f"task.cancelling() at end={root.task.cancelling()}"))
+                found.append(("external-cancel/" + situation(inj), "; ".join(bad) + f"; at injection: cancelling()={inj['cancelling_before']}, cancelled scopes {inj['scopes_cancel_called']}, "
+                              f"task.cancelling() at end={root.task.cancelling()}"))
             if not need and outcome != "cancelled":
                 return found, "iter:" + outcome + "(no checkpoint left)"
     return found, f"{kind}:{outcome}"
@@ -155,8 +193,8 @@ def shape_digest(prog: tuple, kind: str, real: Real) -> str:
 
 def check_program(prog: tuple, res: JobResult, sink: _Sink) -> None:
     res.count("programs")
-    ref0 = Ref(prog).run()
-    if ref0.timer_tie():
+    refs0 = RefSet(prog)
+    if refs0.tie:
         res.count("skipped_ties")
         res.count("programs_skipped_entirely")
         res.outcome("skipped:timer-tie")
@@ -164,13 +202,18 @@ def check_program(prog: tuple, res: JobResult, sink: _Sink) -> None:
     if has_op(prog, ("shield",)) and _scope_inside_shield(prog):
         res.count("programs_scope_inside_shield")
 
-    def one(inject: tuple | None, ref: Ref | None, mode: str) -> Real:
+    def one(inject: tuple | None, refs: RefSet | None, mode: str) -> Real:
         real = Real(prog, inject).run()
         res.evaluations += 1
-        if ref is not None and ref.race():
-            ref = None
-            res.count("race_clause_only")
-        found, oc = judge(prog, inject, ref, real, mode)
+        if refs is not None:
+            if refs.race:
+                refs = None
+                res.count("race_clause_only")
+            else:
+                res.count("disagreements_checked")
+                if len(refs.variants) > 1:
+                    res.count("latitude_catch_or_propagate")
+        found, oc = judge(prog, inject, refs, real, mode)
         res.outcome(oc)
         for key, text in found:
             if key == "INTERNAL":
@@ -186,18 +229,16 @@ def check_program(prog: tuple, res: JobResult, sink: _Sink) -> None:
                                         "observed_root_trace": [list(e[:-2]) + [round(e[-1], 4)] for e in real.root.events if e[0] != "start"]})
         return real
 
-    real0 = one(None, ref0, "trace")
-    res.count("disagreements_checked")
-    inst = ref0.instants()
+    real0 = one(None, refs0, "trace")
+    inst = refs0.main.instants()
     for a, b in zip(inst, inst[1:]):
         x = round((a + b) / 2, 6)
-        refx = Ref(prog, x).run()
-        if refx.timer_tie():
+        refsx = RefSet(prog, x)
+        if refsx.tie:
             res.count("skipped_ties")
             res.outcome("skipped:timer-tie")
             continue
-        one(("t", x), refx, "trace")
-        res.count("disagreements_checked")
+        one(("t", x), refsx, "trace")
     if real0.status == "ok":
         for k in range(2, real0.sel_end + 1):
             one(("i", k), None, "clause")
@@ -220,9 +261,8 @@ def _scope_inside_shield(prog: tuple, inside: bool = False) -> bool:
 def run_job(job: dict) -> JobResult:
     res = JobResult()
     sink = _Sink(res)
-    n, alpha = alphabet(job["tier"])
     part, parts = job["part"], job["parts"]
-    for i, prog in enumerate(alpha.programs(n)):
+    for i, prog in enumerate(tier_programs(job["tier"])):
         if i % parts == part:
             check_program(prog, res, sink)
     sink.flush()
@@ -239,15 +279,17 @@ def replay(doc: dict) -> tuple[bool, str]:
     inject = tuple(rp["inject"]) if rp.get("inject") else None
     mode = rp.get("mode", "trace")
     lines = [f"program : {fmt(prog)}", f"external cancel: {fmt_inject(inject)}   (oracle: {'full trace' if mode == 'trace' else 'clauses (i)-(iv) + bookkeeping'})"]
-    ref = None
+    refs = None
     if inject is None or inject[0] == "t":
-        ref = Ref(prog, inject[1] if inject else None).run()
-        lines.append(f"reference trace (timer tie: {ref.timer_tie()}, cross-task race: {ref.race()}):")
-        lines.append(fmt_traces(ref.traces(), False))
+        refs = RefSet(prog, inject[1] if inject else None)
+        lines.append(f"reference trace (timer tie: {refs.tie}, same-instant race between tasks: {refs.race}, allowed variants: {len(refs.variants)}):")
+        lines.append(fmt_traces(refs.main.traces(), False))
+        for i, r in enumerate(refs.variants[1:], 1):
+            lines.append(f"allowed variant {i} (an inner cancelled scope catches although an enclosing scope is cancelled too):")
+            lines.append(fmt_traces(r.traces(), False))
     else:
-        ref0 = Ref(prog).run()
         lines.append("reference trace of the cancel-free run (for orientation; iteration-indexed injections are judged by clauses):")
-        lines.append(fmt_traces(ref0.traces(), False))
+        lines.append(fmt_traces(RefSet(prog).main.traces(), False))
     real = Real(prog, inject).run()
     lines.append(f"observed trace (status {real.status}):")
     lines.append(fmt_traces(real.traces(), True))
@@ -255,7 +297,7 @@ def replay(doc: dict) -> tuple[bool, str]:
         lines.append(f"injection: {real.inj}")
     if real.root is not None and real.prog_task is not None:
         lines.append(f"task outcome: {real.root.outcome}; task.cancelling() at end: {real.root.task.cancelling()}; end checks: {real.end_checks}")
-    found, oc = judge(prog, inject, ref if (ref is not None and not ref.race() and not ref.timer_tie()) else None, real, mode)
+    found, oc = judge(prog, inject, refs if (refs is not None and not refs.race and not refs.tie) else None, real, mode)
     lines.append(f"outcome class: {oc}")
     for key, text in found:
         lines.append(f"VIOLATED {key}: {text}")
